@@ -236,7 +236,7 @@ PROPS = {
     },
     "C13": {
         "units": [
-            {"pkg": "./c13", "run": "TestC13Sequential|TestC13SelfRedirect|TestC13FromServiceTags", "shards": 4, "shards_thorough": 16, "timeout": 300},
+            {"pkg": "./c13", "run": "TestC13Sequential|TestC13SelfRedirect|TestC13FromServiceTags|TestC13FromRoutesFile", "shards": 4, "shards_thorough": 16, "timeout": 300},
             {"pkg": "./c13", "run": "TestC13Concurrent", "race": True, "shards": 2, "shards_thorough": 4, "timeout": 300},
             {"pkg": "./mainpkg", "run": "^TestC13MainWiring|^TestC13KVOutage", "shards": 2, "shards_thorough": 4, "timeout": 300},
             {"pkg": "./mainpkg", "run": "^TestC13Pipeline", "race": True, "shards": 4, "shards_thorough": 4, "timeout": 400},
